@@ -8,7 +8,7 @@
 (* (sort without carrier, integer beyond TLC's range) is reported in the    *)
 (* `skip` component, never as a failure.                                    *)
 (***************************************************************************)
-EXTENDS Logics
+EXTENDS Logics, AssertionStack
 
 CONSTANT Cap             \* maximum number of interpretations per event
 
@@ -386,5 +386,44 @@ AckContract(e) ==
         ELSE Verdict(Fl("models_of_input_extend_to_output", lost = {}) \o
                      Fl("function_tables_well_defined", illdef = {}) \o
                      Fl("models_of_output_restrict_to_input", spurious = {}), <<>>, -1)
+
+\* ------------------------------------------------------------------ C16
+(***************************************************************************)
+(* History traces: e.cmds is the command history, e.obs[i] what the real    *)
+(* object reported after command i.  The abstract machine is stepped along  *)
+(* the history; every step must be enabled and every observation must equal *)
+(* the abstract state.                                                      *)
+(***************************************************************************)
+RECURSIVE StateAfter(_, _)
+StateAfter(cmds, i) == IF i = 0 THEN InitLevels ELSE Step(StateAfter(cmds, i - 1), cmds[i])
+
+ProjGoals(levels) ==
+    LET g == Goals(levels) IN [j \in 1..Len(g) |-> [k |-> g[j].k, x |-> g[j].x, soft |-> g[j].soft]]
+
+(* script: obs[i] = [formula (term), goals (seq of [k, x, soft])] for the prefix of length i;
+   terms[x] = the formula / objective term with id x *)
+ScriptHistoryContract(e) ==
+    LET n == Len(e.cmds)
+        St(i) == StateAfter(e.cmds, i)
+        illegal == {i \in 1..n : ~Legal(St(i - 1), e.cmds[i])}
+        WantFormula(i) == LET la == LiveAsserts(St(i)) IN MkAnd([j \in 1..Len(la) |-> e.terms[la[j].x]])
+        badf == {i \in 1..n : e.obs[i].formula # WantFormula(i)}
+        badg == {i \in 1..n : e.obs[i].goals # ProjGoals(St(i))}
+    IN  IF illegal # {} THEN Verdict(<<>>, <<"illegal_history">>, -1)
+        ELSE Verdict(Fl("final_formula_is_live_assertions", badf = {}) \o
+                     Fl("goals_are_live_goals", badg = {}), <<>>,
+                     IF badf # {} THEN CHOOSE i \in badf : \A k \in badf : i <= k
+                     ELSE IF badg # {} THEN CHOOSE i \in badg : \A k \in badg : i <= k ELSE -1)
+
+(* incremental solver: obs[i] = seq of assertion ids reported after command i (-1 = the call raised) *)
+SolverHistoryContract(e) ==
+    LET n == Len(e.cmds)
+        St(i) == StateAfter(e.cmds, i)
+        illegal == {i \in 1..n : ~Legal(St(i - 1), e.cmds[i])}
+        Want(i) == LET la == LiveAsserts(St(i)) IN [j \in 1..Len(la) |-> la[j].x]
+        bad == {i \in 1..n : e.obs[i] # Want(i)}
+    IN  IF illegal # {} THEN Verdict(<<>>, <<"illegal_history">>, -1)
+        ELSE Verdict(Fl("assertions_are_live_assertions", bad = {}), <<>>,
+                     IF bad # {} THEN CHOOSE i \in bad : \A k \in bad : i <= k ELSE -1)
 
 =============================================================================
